@@ -153,6 +153,7 @@ def registered_strata(ctx):
     edges = docs.leaf_edges()
     S["leaf-edges"] = (edges + [wrap(d, k) for d in edges[::3] for k in ("bq", "ul")], True)
     more = docs.multi_pairs() + docs.container_pairs() + docs.corpus_marker_variants() + docs.link_edges()
+    S["inline-edges"] = (docs.inline_edges(), True)
     S["nesting-variants"] = (docs.sample(ctx.rng, more, 2500) if q else more, not q)
     S["pragma"] = (list(dict.fromkeys(x for d in pr_base for x in with_pragma(d))) +
                    [PRAGMA, PRAGMA + "\n", PRAGMA + "\n" + PRAGMA + "\n", "<!--\tpyml -->\na\n", "a\n<!-- pyml\t-->\n"], False)
@@ -566,7 +567,7 @@ def run(ctx):
     blocks.linkrecog(ctx)      # *_reassembly, rehydrate_lossless_partial / rehydrate_excluded
     blocks.inlinerecog(ctx)    # angle / rawhtml / charref / backslash / codespan reassembly, codespan_text_roundtrip
     blocks.emphasis(ctx)       # resolve_conservation, resolve_plains_preserved, resolve_lossless_partial
-    ctx.block("coalescelib", "coalesce")        # coalesce pass: content preserved, no adjacent text (Verif.Props.Coalesce)
+    ctx.block("coalescelib", "coalesce", __import__("blocks").SRC["coalesce"])        # coalesce pass: content preserved, no adjacent text (Verif.Props.Coalesce)
     t0 = time.time()
     fstats, mism, oracle = function_level(ctx)
     fstats["wall_s"] = round(time.time() - t0, 1)
